@@ -82,6 +82,13 @@ PROPS = {
         assumptions=["views are records over one shared heap, as `subFS := *vfs` copies them"],
         not_yet_proved=["sub_sim (a view behaves as the parent on prefixed paths)", "sub_confined in the graph sense (Desc of the view root)"],
     ),
+    "C17": dict(
+        props_files=["Avfs/Props/C17.lean"],
+        parts=[dict(name="ostype", tags="verif,avfs_setostype"), dict(name="ostype")],
+        trusted=["oracle for the Windows emulation: the Linux-typed emulation of the same file system (itself compared with the kernel by C01), as the property says", "the model of SetOSType is hand-written (Avfs/OSType.lean), tied by the construction matrix run from two harness binaries (tag on / off)"],
+        assumptions=["host is Linux", "portable histories work below one common directory (the two OS types create different system directories)"],
+        not_yet_proved=["os_agreement as a theorem (needs the Windows branches in the Lean file-system models); volume management sequences (VolumeAdd/VolumeDelete/VolumeList) are not exercised yet"],
+    ),
     "C02": dict(
         props_files=["Avfs/Props/C02.lean"],
         parts=[dict(name="memfs-files"), dict(name="kernel-files")],
